@@ -39,6 +39,7 @@ func init() {
 			{"C05.flag-defaults", "owner and permissions are restored unless the user opts out", 2, func(c *Ctx) {
 				c.flagDefaults(map[string]flagSpec{"no-same-owner": {"false", ".NoSameOwner", 1}, "no-same-permissions": {"false", ".NoSamePermissions", 1}})
 			}},
+			{"C05.exact-reads", "fixed-size fields are read completely (no direct Read in the decoding primitives; byte counts used)", 1, func(c *Ctx) { c.exactReads() }},
 			{"C05.errors-not-dropped", "no error of the operations this property depends on is dropped", 1, func(c *Ctx) { c.errorsNotDropped("C05") }},
 		},
 	})
